@@ -26,10 +26,22 @@ def perturb_device(rng: random.Random, dev: dict):
     optionally reordered / renamed; returns (device, {channel id -> changed params})"""
     new = copy.deepcopy(dev)
     changed = {}
-    for c in new["channels"]:
+    single = rng.random() < 0.6
+    the_one = rng.randrange(len(new["channels"]))
+    for ci, c in enumerate(new["channels"]):
         ch = []
-        if rng.random() < 0.75:
-            for p in rng.sample(TIMING + LIMITS + ["eom"], rng.choice([1, 1, 1, 2, 3])):
+        if single:
+            if ci != the_one:
+                changed[c["id"]] = ch
+                continue
+            cand = ["eom", "eom", "eom"] if c.get("eom") is not None else []
+            cand += ["min_retarget_interval", "min_retarget_interval", "fixed_retarget_t"] if c["addressing"] == "Local" else []
+            cand += TIMING + LIMITS
+            plist = [rng.choice(cand)]
+        else:
+            plist = rng.sample(TIMING + LIMITS + ["eom"], rng.choice([1, 1, 1, 2, 3])) if rng.random() < 0.75 else []
+        if True:
+            for p in plist:
                 if p == "clock_period":
                     c[p] = rng.choice([1, 2, 4, 5, 8])
                 elif p == "min_duration":
@@ -56,7 +68,7 @@ def perturb_device(rng: random.Random, dev: dict):
                     c[p] = rng.choice([None, 1, 2, 3])
                 elif p == "eom" and c.get("eom") is not None:
                     e = c["eom"]
-                    q = rng.choice(["mod_bandwidth", "custom_buffer_time", "max_limiting_amp", "controlled_beams", "drop"])
+                    q = rng.choice(["mod_bandwidth", "custom_buffer_time", "custom_buffer_time", "max_limiting_amp", "max_limiting_amp", "controlled_beams", "drop"])
                     if q == "mod_bandwidth":
                         e[q] = rng.choice([24.0, 40.0, 60.0, 2.0])
                     elif q == "custom_buffer_time":
@@ -90,23 +102,31 @@ def perturb_device(rng: random.Random, dev: dict):
 
 
 def samples_equal(a, b):
+    """sampled amplitude / detuning / phase arrays equal up to float noise (1e-9)"""
     sa, sb = sample(a), sample(b)
+
     def canon(s):
         out = []
         for ch in s.channels:
             x = s.channel_samples[ch]
-            out.append(("dmm" if ch.startswith("dmm_") else ch,
-                        tuple(np.asarray(getattr(x, f), dtype=float).tobytes() for f in ("amp", "det", "phase"))))
-        return sorted(out)
+            out.append(("dmm" if ch.startswith("dmm_") else ch, [np.asarray(getattr(x, f), dtype=float) for f in ("amp", "det", "phase")]))
+        return sorted(out, key=lambda t: (t[0], len(t[1][0]), float(np.nansum(t[1][0]))))
 
-    return canon(sa) == canon(sb)
+    ca, cb = canon(sa), canon(sb)
+    if [t[0] for t in ca] != [t[0] for t in cb]:
+        return False
+    for (_, xs), (_, ys) in zip(ca, cb):
+        for u, w in zip(xs, ys):
+            if u.shape != w.shape or not np.allclose(u, w, rtol=0.0, atol=1e-9, equal_nan=True):
+                return False
+    return True
 
 
 class C18(SeqProp):
     id = "C18"
     props_file = "Props/C18.v"
     focus = "mix"
-    quick_cases = 300
+    quick_cases = 250
     thorough_cases = 4000
     assumptions = [
         "the switched sequence is compared with the original on: channel names, slot kinds/times/targets, pulse samples and phases, EOM blocks, and the sampled amplitude/detuning/phase arrays",
@@ -117,7 +137,7 @@ class C18(SeqProp):
         from harness.props.c01 import has_unit_ramp
 
         while True:
-            case = seqgen.gen_case(rng, n_ops=n_ops, focus=rng.choice(seqgen.FOCI), invalid_rate=0.04, query_rate=0.03)
+            case = seqgen.gen_case(rng, n_ops=n_ops, focus=rng.choice(seqgen.FOCI + ["eom", "eom", "local", "local"]), invalid_rate=0.04, query_rate=0.03)
             # RampWaveform(1, ..) is a NaN sample (C16/C01 finding): not an input of this property
             if not any(has_unit_ramp(o) for o in case["ops"]):
                 break
@@ -160,46 +180,18 @@ class C18(SeqProp):
             tl = timeline(seq)
             # channel ids each channel name used
             used = {name: cs.channel_id for name, cs in seq._schedule.items()}
-            # ---------- strict
-            try:
-                s2 = seq.switch_device(dev2, strict=True)
-            except Exception as e:  # noqa: BLE001
-                s2 = None
-                # "either raises or returns ...": any refusal is within the property
-            if s2 is not None and s2 is not seq:
-                # DMM channel names are derived from the device's DMM ids: compare them as a multiset
-                canon = lambda T: sorted((("dmm" if n.startswith("dmm_") else n), sl, eo) for n, _, sl, eo in T)  # noqa: E731
-                same_tl = canon(tl) == canon(timeline(s2))
+            # ---------- strict: the random second device and every single-parameter variant
+            variants = [("random", case["device2"])] + single_param_variants(case["device"], {cs.channel_id for cs in seq._schedule.values()})
+            seen_sigs = set()
+            for label, dspec in variants:
                 try:
-                    same_smp = samples_equal(seq, s2)
-                except Exception as e:  # noqa: BLE001
-                    same_smp = False
-                if not (same_tl and same_smp):
-                    # which parameters differ between each old channel and the one it was matched to
-                    params = set()
-                    for name, cs2 in s2._schedule.items():
-                        if name not in seq._schedule:
-                            continue
-                        o, n = seq._schedule[name].channel_obj, cs2.channel_obj
-                        for p in TIMING + LIMITS:
-                            if getattr(o, p, None) != getattr(n, p, None):
-                                params.add(p)
-                        eo, en = getattr(o, "eom_config", None), getattr(n, "eom_config", None)
-                        if eo != en:
-                            params.add("eom_config")
-                    if seq.device.max_sequence_duration != dev2.max_sequence_duration:
-                        params.add("max_sequence_duration")
-                    unchecked = sorted(params - STRICT_COMPARED)
-                    sig = "strict-switch-changed-" + ("timeline" if not same_tl else "samples")
-                    known = sorted(set(unchecked) & {"min_duration", "custom_phase_jump_time", "max_duration", "max_sequence_duration"})
-                    if known:
-                        # the automatic delays depend on these and strict mode does not compare them
-                        sig += ":uncompared-timing-parameter"
-                    elif unchecked:
-                        sig += ":other:" + "+".join(unchecked)
-                    else:
-                        sig += ":no-parameter-differs"
-                    bad(sig, f"strict switch accepted; matched channels differ in {sorted(params)}")
+                    dv = dev2 if label == "random" else seqimpl.build_device(dspec)
+                except Exception:  # noqa: BLE001
+                    continue
+                for viol in strict_check(seq, tl, dv, dict(case, device2=dspec, variant=label)):
+                    if viol.signature not in seen_sigs:
+                        seen_sigs.add(viol.signature)
+                        v.append(viol)
             # ---------- non strict
             try:
                 s3 = seq.switch_device(dev2, strict=False)
@@ -216,6 +208,105 @@ class C18(SeqProp):
             except Exception as e:  # noqa: BLE001
                 bad(f"switch-register-raises:{type(e).__name__}", repr(e)[:200])
         return v
+
+
+ALT = {
+    "clock_period": [1, 4, 8], "min_duration": [1, 16, 80], "max_duration": [10**8, 400, None],
+    "mod_bandwidth": [4.0, 40.0], "custom_phase_jump_time": [None, 0, 100],
+    "min_retarget_interval": [0, 220], "fixed_retarget_t": [0, 40],
+    "max_amp": [None, 2.0], "max_abs_detuning": [None, 2.0], "min_avg_amp": [0, 1.0], "max_targets": [None, 1],
+}
+EOM_ALT = {
+    "mod_bandwidth": [24.0, 60.0], "custom_buffer_time": [None, 240, 500], "max_limiting_amp": [60.0, 188.0],
+    "controlled_beams": [["BLUE"], ["BLUE", "RED"]], "multiple_beam_control": [True, False],
+    "intermediate_detuning": [2000.0, 4398.0], "limiting_beam": ["RED", "BLUE"],
+}
+
+
+def single_param_variants(dev, used_ids):
+    out = []
+    for k, c in enumerate(dev["channels"]):
+        if c["id"] not in used_ids:
+            continue
+        for p, vals in ALT.items():
+            if p in ("min_retarget_interval", "fixed_retarget_t", "max_targets") and c["addressing"] != "Local":
+                continue
+            for val in vals:
+                if c.get(p) == val:
+                    continue
+                if p == "mod_bandwidth" and val is None and c.get("eom") is not None:
+                    continue
+                d = copy.deepcopy(dev)
+                d["channels"][k][p] = val
+                out.append((f"{c['id']}.{p}={val}", d))
+        if c.get("eom") is not None:
+            for p, vals in EOM_ALT.items():
+                for val in vals:
+                    if c["eom"].get(p, True if p == "multiple_beam_control" else None) == val:
+                        continue
+                    d = copy.deepcopy(dev)
+                    d["channels"][k]["eom"][p] = val
+                    out.append((f"{c['id']}.eom.{p}={val}", d))
+    if dev.get("max_sequence_duration") is not None:
+        d = copy.deepcopy(dev)
+        d["max_sequence_duration"] = None
+        out.append(("max_sequence_duration=None", d))
+    return out
+
+
+def strict_check(seq, tl, dev2, case):
+    v = []
+
+    def bad(sig, what):
+        v.append(Violation(sig, what, case))
+
+    if True:
+        if True:
+                try:
+                    s2 = seq.switch_device(dev2, strict=True)
+                except Exception as e:  # noqa: BLE001
+                    s2 = None
+                    # "either raises or returns ...": any refusal is within the property
+                if s2 is not None and s2 is not seq:
+                    # DMM channel names are derived from the device's DMM ids: compare them as a multiset
+                    # (EOM block records are not compared: what they play is in the slots and the samples)
+                    canon = lambda T: sorted(((("dmm" if n.startswith("dmm_") else n), sl) for n, _, sl, eo in T), key=repr)  # noqa: E731
+                    same_tl = canon(tl) == canon(timeline(s2))
+                    try:
+                        same_smp = samples_equal(seq, s2)
+                    except Exception as e:  # noqa: BLE001
+                        same_smp = False
+                    if not (same_tl and same_smp):
+                        # which parameters differ between each old channel and the one it was matched to
+                        params = set()
+                        for name, cs2 in s2._schedule.items():
+                            if name not in seq._schedule:
+                                continue
+                            o, n = seq._schedule[name].channel_obj, cs2.channel_obj
+                            for p in TIMING + LIMITS:
+                                if getattr(o, p, None) != getattr(n, p, None):
+                                    params.add(p)
+                            eo, en = getattr(o, "eom_config", None), getattr(n, "eom_config", None)
+                            if eo != en:
+                                params.add("eom_config")
+                        if seq.device.max_sequence_duration != dev2.max_sequence_duration:
+                            params.add("max_sequence_duration")
+                        unchecked = sorted(params - STRICT_COMPARED)
+                        sig = "strict-switch-changed-" + ("timeline" if not same_tl else "samples")
+                        known = sorted(set(unchecked) & {"min_duration", "custom_phase_jump_time", "max_duration", "max_sequence_duration"})
+                        if known:
+                            # the automatic delays depend on these and strict mode does not compare them
+                            sig += ":uncompared-timing-parameter"
+                        elif unchecked == ["eom_config"] and same_smp:
+                            # a different EOM buffer time moves slot boundaries between idle slots;
+                            # what is played (the sampled arrays) is identical
+                            sig += ":eom-buffer-slot-boundaries-only"
+                        elif unchecked:
+                            sig += ":other:" + "+".join(unchecked)
+                        else:
+                            sig += ":no-parameter-differs"
+                        bad(sig, f"strict switch accepted; matched channels differ in {sorted(params)}")
+    return v
 
 
 def limits_of(seq, case):
@@ -248,7 +339,7 @@ def limits_of(seq, case):
                 if ch.max_abs_detuning is not None and np.any(np.abs(d) > ch.max_abs_detuning + 1e-6):
                     bad("detuning-above-max", f"{name}: {np.abs(d).max()} > {ch.max_abs_detuning}")
                 avg = float(np.average(a))
-                if 0 < avg < ch.min_avg_amp:
+                if 0 < avg < ch.min_avg_amp * (1 - 1e-9):
                     bad("average-below-min", f"{name}: {avg} < {ch.min_avg_amp}")
             elif s.type == "delay" and s.tf - s.ti < ch.min_duration:
                 bad("delay-below-min", f"{name}: {s.tf - s.ti} < {ch.min_duration}")
